@@ -387,6 +387,7 @@ class MarkdownNormalizer(Renderer):
 
         # Reset inline text tracking for this paragraph
         self._current_inline_text = ""
+        self._bare_url_end = (-1, "")
         children: Any = self.render_children(element)
 
         # GFM checkbox support.
@@ -401,6 +402,7 @@ class MarkdownNormalizer(Renderer):
         )
         self._prefix = self._second_prefix
         self._current_inline_text = ""
+        self._bare_url_end = (-1, "")
         return wrapped_text + "\n"
 
     def render_list(self, element: block.List) -> str:
@@ -586,6 +588,7 @@ class MarkdownNormalizer(Renderer):
     def render_heading(self, element: block.Heading) -> str:
         self._in_heading = True
         self._current_inline_text = ""
+        self._bare_url_end = (-1, "")
         children_content = self.render_children(element)
         # A multi-line (setext) heading becomes a one-line ATX heading: a soft line break
         # inside it would end the heading and start a paragraph.
@@ -601,6 +604,7 @@ class MarkdownNormalizer(Renderer):
             children_content = children_content[:start] + "\\" + children_content[start:]
         self._in_heading = False
         self._current_inline_text = ""
+        self._bare_url_end = (-1, "")
         heading_text = f"{self._prefix}{'#' * element.level} {children_content}"
         if "\n" in children_content:
             # A hard line break inside a (setext) heading: an ATX heading is a single line and
@@ -793,12 +797,13 @@ class MarkdownNormalizer(Renderer):
             # What follows a hard break starts a line, like the start of the paragraph
             # (an escaped `1\.` there must keep its escape).
             text = self._current_inline_text
+            url_end, url = self._bare_url_end
             self._current_inline_text = ""
+            self._bare_url_end = (-1, "")
             if (len(text) - len(text.rstrip("\\"))) % 2 == 1:
                 # A literal backslash right before the break is escaped, or it would be
                 # read together with the backslash of the break as an escaped backslash.
                 return "\\\\\n"
-            url_end, url = self._bare_url_end
             if url_end == len(text) and text.endswith(url):
                 # Directly after a bare URL the backslash would become part of the link.
                 return " \\\n"
